@@ -34,19 +34,20 @@ Mismatch(c) ==
 Distinguishing(c) ==
     LET B == BaseOf(c.b)
         P == Part(B, WS)
-    IN  {<<name, qi>> \in {"lexAllPairs", "lexLeq", "lexAllMcsF", "wNoTie", "wAnyTie"} \X QsOf(c) :
+    IN  {<<name, qi>> \in {"lexAllPairs", "lexLeq", "lexAllMcsF", "wNoTie", "wAnyTie", "wMinCard"} \X QsOf(c) :
             /\ P.inf = {}
             /\ LET q == CondOf(qi)
                IN  CASE name = "lexAllPairs" -> AlgoLexAllPairs(B, q, WS, FALSE) # SysLexP(B, P, q, WS, FALSE)
                      [] name = "lexLeq"      -> AlgoLexLeq(B, q, WS, FALSE) # SysLexP(B, P, q, WS, FALSE)
                      [] name = "lexAllMcsF"  -> AlgoLexAllMcsF(B, q, WS, FALSE) # SysLexP(B, P, q, WS, FALSE)
                      [] name = "wNoTie"      -> AlgoWNoTie(B, q, WS, FALSE) # SysWP(B, P, q, WS, FALSE)
-                     [] name = "wAnyTie"     -> AlgoWAnyTie(B, q, WS, FALSE) # SysWP(B, P, q, WS, FALSE)}
+                     [] name = "wAnyTie"     -> AlgoWAnyTie(B, q, WS, FALSE) # SysWP(B, P, q, WS, FALSE)
+                     [] name = "wMinCard"    -> AlgoWMinCard(B, q, WS, FALSE) # SysWP(B, P, q, WS, FALSE)}
 
 Report(c) ==
     LET D == Distinguishing(c)
     IN  \A d \in D : PrintT(ToJson([variant |-> d[1], b |-> c.b, q |-> d[2],
-                                    expected |-> (IF d[1] \in {"wNoTie", "wAnyTie"} THEN SysW(BaseOf(c.b), CondOf(d[2]), WS, FALSE)
+                                    expected |-> (IF d[1] \in {"wNoTie", "wAnyTie", "wMinCard"} THEN SysW(BaseOf(c.b), CondOf(d[2]), WS, FALSE)
                                                   ELSE SysLex(BaseOf(c.b), CondOf(d[2]), WS, FALSE))]))
 
 Init == stage = 0 /\ case = <<>> /\ bad = {}
